@@ -1,5 +1,90 @@
 ------------------------------ MODULE Mon_C15 ------------------------------
-EXTENDS Naturals, Sequences, TLC
-MonInit == [viol |-> <<>>]
-MonStep(m, e, l) == m
+(***************************************************************************)
+(* C15 - A master accepts only the answer to its question and confirms     *)
+(* what it accepts.  For every fragment injected towards the master the    *)
+(* monitor decides from the wire alone whether it answers the outstanding  *)
+(* request (addressed outstation, matching sequence, solicited, FIR/FIN/   *)
+(* CON shape of a read series or FIR+FIN for other requests, parsable, no  *)
+(* IIN2 rejection) and compares with what the master did on that line:     *)
+(*   accepted-wrong      handler delivery / task success / completion OK   *)
+(*                       caused by a fragment that is not the answer, or a *)
+(*                       confirm of a fragment whose header already shows  *)
+(*                       that it is not                                    *)
+(*   no-confirm / double-confirm                                           *)
+(*                       an accepted fragment with CON is confirmed        *)
+(*                       exactly once (same sequence number and UNS bit)   *)
+(*   not-delivered / delivered-twice / order                               *)
+(*                       contents of an accepted data fragment reach the   *)
+(*                       handler exactly once, in wire order               *)
+(*   dup-unsol-delivered a repeated unsolicited fragment is confirmed but  *)
+(*                       not delivered again                               *)
+(*   acted-unknown       a fragment from an unknown outstation is ignored  *)
+(***************************************************************************)
+EXTENDS MMonBase
+
+MonInit == [cfg |-> [assocs |-> <<>>], sc |-> "", viol |-> <<>>, out |-> NoOut,
+            lastU |-> <<>>]       \* <<[a, seq, hash, iin, con]>> last accepted unsolicited fragment per outstation
+V(m, reason, l, ctx) == [m EXCEPT !.viol = Append(@, Viol("C15", reason, l, m.sc, ctx))]
+
+ItemKey(c) == <<c.i[2], c.i[3], c.i[4]>>          \* group, variation, index as delivered
+WireKey(o) == <<o.g, o.v, o.ix>>
+
+MonStep(m, e, l) ==
+    IF e.k = "reset" THEN [MonInit EXCEPT !.cfg = e.cfg, !.sc = e.id, !.viol = m.viol]
+    ELSE IF ~HasOutputs(e) THEN m
+    ELSE IF e.k \in {"cut", "conn"} THEN [m EXCEPT !.out = TrackOut(m.out, e), !.lastU = <<>>]
+    ELSE IF e.k # "rx" \/ e.rx.noconn \/ e.rx.fc = -1 THEN [m EXCEPT !.out = TrackOut(m.out, e)]
+    ELSE
+    LET x == e.rx
+        known == IsAssoc(m.cfg, x.src)
+        \* the answer as far as the fragment header tells / with objects that parse.  The replies to WRITE, ENABLE and
+        \* DISABLE_UNSOLICITED carry no objects: their contents are not examined
+        hdrAns == x.body # "hdrbad" /\ Answers(m.out, [x EXCEPT !.body = "empty"])
+        ans == Answers(m.out, x)
+        accOk == ans \/ (hdrAns /\ m.out.fc \in {2, 20, 21})
+        solConf == Confirms(e, FALSE, x.seq, x.src)
+        unsConf == Confirms(e, TRUE, x.seq, x.src)
+        accSignals == TaskBegins(e) # <<>> \/ Succ(e) # <<>> \/ (\E i \in 1..Len(e.done) : e.done[i].res = "ok")
+    IN
+    IF x.fc = 130 /\ x.uns /\ x.body # "hdrbad" THEN
+        \* unsolicited
+        LET delivered == UnsolBegins(e) # <<>>
+            noted == CbsOf(e, "ai", "unsol") # <<>>
+            prev == SelectSeq(m.lastU, LAMBDA u : u.a = x.src)
+            dup == prev # <<>> /\ prev[1].seq = x.seq /\ prev[1].hash = x.hash /\ prev[1].iin = x.iin /\ prev[1].con = x.con
+            m1 == IF ~known /\ (delivered \/ noted \/ unsConf # <<>>)
+                    THEN V(m, "acted-unknown", l, "unsolicited fragment from an unknown outstation was acted on") ELSE m
+            m2 == IF known /\ dup /\ delivered
+                    THEN V(m1, "dup-unsol-delivered", l, "repeated unsolicited fragment delivered again") ELSE m1
+            m3 == IF known /\ noted /\ x.con /\ Len(unsConf) # 1
+                    THEN V(m2, IF unsConf = <<>> THEN "no-confirm" ELSE "double-confirm", l,
+                           "accepted unsolicited fragment with CON must be confirmed exactly once") ELSE m2
+            m4 == IF known /\ ~noted /\ unsConf # <<>>
+                    THEN V(m3, "accepted-wrong", l, "unsolicited fragment confirmed although it was not accepted") ELSE m3
+            m5 == IF known /\ delivered /\ ~dup /\ x.body = "data" /\
+                       [i \in 1..Len(Items(e)) |-> ItemKey(Items(e)[i])] # [i \in 1..Len(x.items) |-> WireKey(x.items[i])]
+                    THEN V(m4, "order", l, "unsolicited contents not delivered exactly once in wire order") ELSE m4
+        IN [m5 EXCEPT !.out = TrackOut(m.out, e),
+                      !.lastU = IF known /\ noted
+                                  THEN Append(SelectSeq(@, LAMBDA u : u.a # x.src),
+                                              [a |-> x.src, seq |-> x.seq, hash |-> x.hash, iin |-> x.iin, con |-> x.con])
+                                  ELSE @]
+    ELSE
+        \* solicited (or something that is neither): only the answer may have an effect
+        LET m1 == IF (~accOk /\ accSignals) \/ (~hdrAns /\ solConf # <<>>)
+                    THEN V(m, "accepted-wrong", l,
+                           "a fragment that is not the answer to the outstanding request completed it, reached the handler or was confirmed")
+                    ELSE m
+            m2 == IF ans /\ x.con /\ Len(solConf) # 1
+                    THEN V(m1, IF solConf = <<>> THEN "no-confirm" ELSE "double-confirm", l,
+                           "accepted fragment with CON must be confirmed exactly once") ELSE m1
+            m3 == IF ans /\ m.out.read /\ x.body = "data" /\ Len(TaskBegins(e)) # 1
+                    THEN V(m2, IF TaskBegins(e) = <<>> THEN "not-delivered" ELSE "delivered-twice", l,
+                           "accepted read fragment must reach the handler exactly once") ELSE m2
+            m4 == IF ans /\ m.out.read /\ x.body = "data" /\ Len(TaskBegins(e)) = 1 /\
+                       [i \in 1..Len(Items(e)) |-> ItemKey(Items(e)[i])] # [i \in 1..Len(x.items) |-> WireKey(x.items[i])]
+                    THEN V(m3, "order", l, "contents not delivered exactly once in wire order") ELSE m3
+        IN [m4 EXCEPT !.out = TrackOut(m.out, e)]
+
+Claimed == {"C15"}
 =============================================================================
